@@ -238,8 +238,8 @@ impl Family for V3 {
     fn from_exp(e: &crate::mutate::ExpErr) -> Option<Self::Error> {
         e.v3()
     }
-    fn build_sized(_kind: u64, _typ: usize, _target: usize) -> Option<Self::Packet> {
-        None
+    fn build_sized(kind: u64, typ: usize, target: usize) -> Option<Self::Packet> {
+        crate::sized::build_v3(kind, typ, target)
     }
     fn body_level_decode(frame: &[u8]) -> Option<Result<Self::Packet, Self::Error>> {
         use futures_lite::future::block_on;
